@@ -157,8 +157,16 @@ def run_mutant(args):
         res["detected_by"] = "import-error"
     else:
         for c in checks_for(m["file"]):
-            r = subprocess.run(["./check", c, "--tier", tier, "--jobs", str(jobs)], cwd="/verif", capture_output=True, text=True, env=env)
+            try:
+                r = subprocess.run(["./check", c, "--tier", tier, "--jobs", str(jobs)], cwd="/verif", capture_output=True, text=True, env=env, timeout=2400)
+            except subprocess.TimeoutExpired:
+                res["ran"].append(c)
+                res["detected_by"] = f"timeout:{c}"  # a check that does not terminate within 40 minutes is noticed, but it is not a verdict
+                break
             res["ran"].append(c)
+            if r.returncode < 0:
+                res["detected_by"] = f"killed:{c}"
+                break
             if r.returncode != 0:
                 sig = [x.strip()[len("violation "):].split(": ")[0] for x in r.stdout.splitlines() if x.strip().startswith("violation ")]
                 res["detected_by"] = c
